@@ -19,7 +19,7 @@ from ..common import Ctx
 LEVEL = "exploration"
 SHARDS = {"quick": 8, "thorough": 16}
 FLOOR = {"quick": 3000, "thorough": 20000}
-REQUIRED_COUNTERS = ["requests_captured", "cfg_with_query_key", "cfg_with_cookie_key", "cfg_case_overlap"]
+REQUIRED_COUNTERS = ["sequence_requests", "requests_captured", "cfg_with_query_key", "cfg_with_cookie_key", "cfg_case_overlap"]
 RULE = ("every ordered selection of 0-3 plugins out of {Bearer, ApiKey-header, ApiKey-query, ApiKey-cookie, HeadersAuth, "
         "OAuth2, OAuth2+refresh} x header-overlap pattern x caller params/cookies/body presence x bearer_token shortcut; "
         "a case = (plugins, pattern, caller kwargs); non-trivial = >=1 plugin or overlapping header names")
@@ -265,6 +265,78 @@ async def run_case(ctx: Ctx, mods, case: dict) -> None:
                     "wire_url": str(r.url)})
 
 
+SEQ_HEADERS = [None, {"X-Req": "r1", "x-a": "over"}, None, {"X-Other": "o"}, {"X-A": "again"}, None]
+
+
+async def run_sequence(ctx: Ctx, mods, plugs: tuple[str, ...], pattern_i: int, shortcut: bool) -> None:
+    """Several requests through ONE transport instance: every request must be judged on its own (no state carried over),
+    and the caller's default_headers / per-request dicts must not be mutated."""
+    import httpx
+
+    rec = ctx.rec
+    pattern = PATTERNS[pattern_i]
+    captured: list[httpx.Request] = []
+
+    def handler(request: httpx.Request) -> httpx.Response:
+        captured.append(request)
+        return httpx.Response(200, json={})
+
+    class CapturingClient(httpx.AsyncClient):
+        def __init__(self, *a: Any, **kw: Any) -> None:
+            kw["transport"] = httpx.MockTransport(handler)
+            super().__init__(*a, **kw)
+
+    log: list = []
+    objs = [mk_plugin(mods, k, pattern, log) for k in plugs]
+    auth = None if not objs else (objs[0] if len(objs) == 1 else mods["base"].CompositeAuth(*objs))
+    defaults = dict(pattern["defaults"]) if pattern["defaults"] else None
+    defaults_before = json.dumps(defaults, sort_keys=True)
+    orig = httpx.AsyncClient
+    httpx.AsyncClient = CapturingClient  # type: ignore[misc]
+    try:
+        t = mods["ht"].HttpxTransport("https://api.test", auth=auth, bearer_token="tokS" if shortcut else None, default_headers=defaults)
+    finally:
+        httpx.AsyncClient = orig  # type: ignore[misc]
+    case = {"sequence": True, "plugins": list(plugs), "pattern": pattern_i, "shortcut": shortcut}
+    feats = ["sequence"]
+    for i, hdrs in enumerate(SEQ_HEADERS):
+        req: dict[str, Any] = {}
+        if hdrs is not None:
+            req["headers"] = dict(hdrs)
+        if i % 2:
+            req["params"] = {"q": str(i)}
+        before = json.dumps(req, sort_keys=True)
+        captured.clear()
+        rec.case(dict(case, step=i), nontrivial=True)
+        rec.count("sequence_requests")
+        try:
+            await t.request("GET", "/op1/x", **req)
+        except Exception as e:
+            rec.violation(f"sequence:raise:{type(e).__name__}", feats, dict(case, step=i), repr(e))
+            continue
+        if len(captured) != 1:
+            rec.violation("sequence:request_count", feats, dict(case, step=i), str(len(captured)))
+            continue
+        r = captured[0]
+        h, q, ck = model(plugs, dict(pattern, req_headers=hdrs), req, shortcut)
+        for n, v in h.items():
+            got = r.headers.get_list(n)
+            if got != [v]:
+                rec.violation("sequence:header_mismatch", feats, dict(case, step=i), f"request {i}: header {n!r} expected [{v!r}] got {got!r}")
+        expected_names = {n.lower() for n, _ in h.items()}
+        for n in r.headers:
+            if n.lower().startswith("x-") and n.lower() not in expected_names:
+                rec.violation("sequence:stale_header_from_earlier_request", feats, dict(case, step=i),
+                              f"request {i}: unexpected header {n!r}={r.headers[n]!r}")
+        if dict(r.url.params.multi_items()) != q:
+            rec.violation("sequence:query_mismatch", feats, dict(case, step=i), f"{dict(r.url.params.multi_items())} != {q}")
+        if json.dumps(req, sort_keys=True) != before:
+            rec.violation("sequence:caller_kwargs_mutated", feats, dict(case, step=i), json.dumps(req))
+        if json.dumps(defaults, sort_keys=True) != defaults_before:
+            rec.violation("sequence:default_headers_mutated", feats, dict(case, step=i), json.dumps(defaults))
+    await t.close()
+
+
 def all_cases(ctx: Ctx):
     sels = [()]
     for k in (1, 2, 3):
@@ -288,10 +360,21 @@ def run_shard(ctx: Ctx) -> None:
         for i, case in all_cases(ctx):
             if ctx.mine(i):
                 await run_case(ctx, mods, case)
+        j = 0
+        for plugs in [(), ("bearer",), ("key_query", "headers", "bearer"), ("headers",), ("oauth_refresh", "key_header")]:
+            for pi in range(len(PATTERNS)):
+                for shortcut in (False, True):
+                    j += 1
+                    if ctx.mine(j):
+                        await run_sequence(ctx, mods, plugs, pi, shortcut)
 
     asyncio.run(go())
 
 
 def replay(ctx: Ctx, file: dict) -> None:
     mods = load()
-    asyncio.run(run_case(ctx, mods, file["case"]))
+    c = file["case"]
+    if c.get("sequence"):
+        asyncio.run(run_sequence(ctx, mods, tuple(c["plugins"]), c["pattern"], c["shortcut"]))
+    else:
+        asyncio.run(run_case(ctx, mods, c))
